@@ -82,12 +82,12 @@ Definition brev_impl (x : Z) : Z :=
 
 (** S_BFE_I32 as both ALUs compute it after the repair: int32 arithmetic,
     offset = S1[4:0], width = S1[22:16] *)
-Definition bfe_i32_impl (a b : Z) : Z :=
-  let x := s32 a in let s1 := u32 b in
-  let off := Z.land s1 31 in let w := Z.land (Z.shiftr s1 16) 127 in
+Definition bfe_core (x off w : Z) : Z :=
   if w =? 0 then 0
   else if off + w >=? 32 then Z.shiftr x off
   else Z.shiftr (s32 (Z.shiftl x (32 - off - w))) (32 - w).
+Definition bfe_i32_impl (a b : Z) : Z :=
+  let s1 := u32 b in bfe_core (s32 a) (Z.land s1 31) (Z.land (Z.shiftr s1 16) 127).
 
 (** * GCN3 ALU (amd/emu/alusop2.go, alusop1.go, alusopc.go, alusopk.go, alu.go) *)
 Definition g_sop2 (op a b : Z) (st : state) : option sres :=
